@@ -1,0 +1,25 @@
+//go:build verif
+
+package cfgbackend
+
+import (
+	"net/http"
+
+	"github.com/hashicorp/consul/api"
+)
+
+// NewConsulSourceForVerif is NewConsulSource with an injected HTTP client (transport).
+func NewConsulSourceForVerif(uri string, httpClient *http.Client) (cc *ConsulSource, err error) {
+	cfg := api.DefaultConfig()
+	cfg.Address = uri
+	cfg.HttpClient = httpClient
+	cli, err := api.NewClient(cfg)
+	if err != nil {
+		return
+	}
+	cc = &ConsulSource{
+		uri: uri,
+		kv:  cli.KV(),
+	}
+	return
+}
